@@ -409,6 +409,10 @@ class SecopClient(ProxyClient):
                     self._shutdown.wait(1)
             if not self._shutdown.is_set():
                 self.log.info('%s ready', self.nodename)
+            elif not reconnecting and not self.io:
+                # a shutdown was requested while connecting: do not let the caller
+                # queue a request which nobody will transmit or release
+                raise ConnectionError('connection shut down')
 
     def __txthread(self):
         while self._running:
